@@ -3,6 +3,7 @@ CONSTANT ARD = 6
 INVARIANT HistoryWellFormed
 INVARIANT BestBlockIsChainTip
 INVARIANT FundingDepthIsChainFunction
+INVARIANT ChannelGivenUpIffChainSaysSo
 INVARIANT ClosedIffSpendOnChain
 INVARIANT RelevantTxidsOnBestChain
 INVARIANT UnburiedStillWatched
